@@ -213,10 +213,10 @@ class SpooledIOBase(IOBase):
         if not line:
             pos = self.buffer.tell()
             self.buffer.seek(0, os.SEEK_END)
-            if pos == self.buffer.tell():
+            end = self.buffer.tell()
+            self.buffer.seek(pos)
+            if pos >= end:
                 raise StopIteration
-            else:
-                self.buffer.seek(pos)
         return line
 
     next = __next__
